@@ -548,6 +548,29 @@ func (e *engine) eval() error {
 			}
 		}
 	}
+	// Facts produced by a do-transform may feed other rules of this stratum (also recursive ones for
+	// the same predicate), so the do-transforms are applied before the incremental rounds and their
+	// results enter the delta.
+	hasDoTransform := false
+	for _, clause := range e.programInfo.Rules {
+		if clause.Transform != nil && !clause.Transform.IsLetTransform() {
+			hasDoTransform = true
+		}
+	}
+	if hasDoTransform {
+		if err := e.mergeDelta(); err != nil {
+			return err
+		}
+		if err := e.applyDoTransforms(func(a ast.Atom) bool {
+			if e.store.Add(a) {
+				e.deltaStore.Add(a)
+				return true
+			}
+			return false
+		}); err != nil {
+			return err
+		}
+	}
 	if e.deltaStore.EstimateFactCount() > 0 || (e.temporalDeltaStore != nil && e.temporalDeltaStore.EstimateFactCount() > 0) {
 		// Incremental rounds.
 		deltaRuleMap := makeDeltaRules(e.programInfo.Decls, e.predToRules)
@@ -629,7 +652,12 @@ func (e *engine) eval() error {
 			}
 		}
 	}
-	// We reached the fixed point and can now apply "do-transforms".
+	return nil
+}
+
+// applyDoTransforms evaluates the rules with a do-transform. Their bodies only mention predicates of
+// lower strata and internal predicates, all of which are complete after the first round.
+func (e *engine) applyDoTransforms(emit func(ast.Atom) bool) error {
 	for _, clause := range e.programInfo.Rules {
 		if clause.Transform == nil || clause.Transform.IsLetTransform() {
 			continue
@@ -667,7 +695,7 @@ func (e *engine) eval() error {
 				if e.options.recorder != nil && kind == TransformKindDo {
 					e.options.recorder.DoEmit(clause, clause.Head, groupKey, groupFacts, a)
 				}
-				return e.store.Add(a)
+				return emit(a)
 			}); err != nil {
 			return err
 		}
